@@ -448,12 +448,17 @@ def check_fragment_offsets(ctx, rep, roles, RULE):
                 s2.env[GS] = Num(s2.env[GS].lin + r)
                 return [(s2, Num(r))]
             return None
-    eng = Engine(ctx, H())
+    hh = H()
+    backs = []
+    hh.on_loop = lambda eng, fr, node, syms, entered, back, exits, breaks: backs.append(len(back)) if fr.func is dec else None
+    eng = Engine(ctx, hh)
     st = State()
     st.env[GS] = Num(Lin.const(0))
     eng.run_function(dec, {}, state=st)
     if not seen:
         raise AnalysisError("decoder(): call of the derivation function not reached")
+    if not backs or not any(backs):
+        raise AnalysisError("decoder(): no path of the abstract run completes an iteration of the fragment loop (model lost)")
     agg = {}
     for node, bound, s in seen:
         probs = []
@@ -653,6 +658,11 @@ def check_writer(ctx, rep, R1, R2):
                 s2.add_lin(ge(r, 0))
                 s2.env[GLEN] = Num(r)
                 s2.env[GOUT] = Num(s2.env[GOUT].lin + r + Lin.const(seplen))
+                # the writer fills the lists it is handed: their contents are unknown afterwards
+                if isinstance(node, ast.Call):
+                    for a in list(node.args) + [k.value for k in node.keywords]:
+                        if isinstance(a, ast.Name) and isinstance(s2.env.get(a.id), Tup):
+                            s2.env[a.id] = Unk(eng.fresh("filled:" + a.id))
                 return [(s2, Unk(eng.fresh("wret")))]
             if hasattr(callee, "posparams") and getattr(callee, "cls", None) is None and callee is not W and fr.func is top \
                     and isinstance(node, ast.Call) and len(node.args) == 1 and isinstance(node.args[0], ast.Name) \
@@ -667,13 +677,18 @@ def check_writer(ctx, rep, R1, R2):
                 s2.add_lin(eq(Lin.var(("len", vkey(v), 0)) - s2.env[GLEN].lin, 0))
                 return [(s2, v)]
             return None
-    eng2 = Engine(ctx, TH())
+    th = TH()
+    th.backs = []
+    th.on_loop = lambda eng, fr, node, syms, entered, back, exits, breaks: th.backs.append(len(back)) if fr.func is top else None
+    eng2 = Engine(ctx, th)
     st2 = State()
     st2.env[GLEN] = Num(Lin.const(0))
     st2.env[GOUT] = Num(Lin.const(0))
     eng2.run_function(top, {}, state=st2)
     if not seen:
         raise AnalysisError("mol_to_smiles: the call of the fragment writer is not reached")
+    if not th.backs or not any(th.backs):
+        raise AnalysisError("mol_to_smiles: no path of the abstract run completes an iteration of the fragment loop (model lost)")
     agg = {}
     for node, offv, s in seen:
         ok = isinstance(offv, Num) and s.entails(eq(offv.lin - s.env[GOUT].lin + Lin.const(0), 0))
